@@ -3067,3 +3067,48 @@ def walker_rules(ctx):
         ctx.check(names == {'transactions::DATA_FREED_TABLE', 'transactions::SYSTEM_FREED_TABLE'}, 'const|%s|tables' % f.path, 'process_freed_pages drains DATA_FREED_TABLE and SYSTEM_FREED_TABLE (found %s)' % sorted(map(str, names)), f, f.line)
         for p_ in ex:
             ctx.must_pass(f, [p_], what='both freed tables are drained on every success path')
+
+
+# ------------------------------------------------------------------------------------ reader reference counts (C02/C06/C07)
+def refcount_rules(ctx):
+    ctx.set_rule('C02.R9', 'live-reader reference counts: every registration increments, every release decrements and removes at zero')
+
+    def has_bin(fn_, ops, const):
+        for b in fn_.blocks:
+            for st in b['s']:
+                if st[0] == 'a' and st[2]['k'] == 'bin' and st[2]['op'] in ops:
+                    if any(o[0] == 'k' and o[2] == const for o in st[2]['o']):
+                        return True
+        return False
+    for nm in ('register_read_transaction', 'register_non_durable_commit', 'register_persistent_savepoint'):
+        f = ctx.fn(TT + '::' + nm)
+        if f is None:
+            continue
+        am = ctx.sites(f, 'Entry::and_modify', exact=1)
+        oi = ctx.sites(f, 'Entry::or_insert', exact=1)
+        for p_ in oi:
+            ctx.const_arg(f, p_, 1, 1, 'a first registration starts the count at 1')
+        inc = [c for c in f.closures if has_bin(c, ('Add', 'AddWithOverflow'), 1)]
+        ctx.check(len(inc) == 1, 'refcount|%s|increment' % f.path, '%s increments an existing count by one (and_modify closure)' % nm, f, f.line)
+        ctx.held(f, am + oi, TTSTATE)
+    for nm in ('deallocate_read_transaction', 'clear_pending_non_durable_commits'):
+        f = ctx.fn(TT + '::' + nm)
+        if f is None:
+            continue
+        ctx.check(has_bin(f, ('Sub', 'SubWithOverflow'), 1), 'refcount|%s|decrement' % f.path, '%s decrements the count by one' % nm, f, f.line)
+        rm = ctx.sites(f, 'BTreeMap::remove', exact=1)
+        ctx.guarded_cmp(f, rm, [Guard(call='BTreeMap::get_mut', cmp=True)], 'the entry is removed only behind a test of its count')
+        ctx.held(f, rm, TTSTATE)
+    # who touches the map
+    own = set()
+    for f_ in ctx.facts.fn_list:
+        S_ = core.sym(f_)
+        for c in f_.calls:
+            if c.matches(('BTreeMap::entry', 'BTreeMap::insert', 'BTreeMap::remove', 'BTreeMap::get_mut', 'BTreeMap::clear')) and c.t['a']:
+                d = S_.describe(S_.operand(c.t['a'][0]))
+                if d.endswith('.live_read_transactions'):
+                    own.add(ctx.facts.root_of(f_).path)
+    exp = {TT + '::' + x for x in ('register_read_transaction', 'register_non_durable_commit', 'register_persistent_savepoint', 'deallocate_read_transaction', 'clear_pending_non_durable_commits')}
+    for p_ in sorted(own):
+        ctx.check(any(core.name_matches(e, core.alt_names(p_)) for e in exp), 'new-writer|live_read_transactions|%s' % p_, '`%s` mutates TransactionTracker.live_read_transactions (confirmed writers: the five registration/release functions)' % p_)
+    ctx.check(len(own) >= 5, 'floor|live_read_transactions-writers', 'the five confirmed writers of live_read_transactions were found (%d)' % len(own))
